@@ -164,6 +164,8 @@ type Gen struct {
 	Small bool
 	// Generate VPN objects (ASA).
 	WithVPN bool
+	// Object-groups also in the small universe (ASA).
+	SmallGroups bool
 }
 
 func (g *Gen) host() string {
@@ -276,7 +278,7 @@ func (g *Gen) Target() *GConf {
 			c.Intfs = append(c.Intfs, fmt.Sprintf("Ethernet%d", i+1))
 		}
 	}
-	if g.Kind == "asa" && !g.Small {
+	if g.Kind == "asa" && (!g.Small || g.SmallGroups) {
 		for i := g.Rng.Intn(4); i > 0; i-- {
 			gr := &GGroup{Name: fmt.Sprintf("g%d", len(c.Groups))}
 			if len(c.Groups) > 0 && g.Rng.Intn(3) == 0 {
@@ -411,11 +413,27 @@ func (g *Gen) Target() *GConf {
 	if g.Kind == "ios" && !g.Small && g.WithVPN && g.Rng.Intn(3) == 0 {
 		g.targetIOSCrypto(c, c.Intfs[len(c.Intfs)-1])
 	}
+	dedupMembers(c)
 	g.pruneGroups(c)
 	if g.Kind == "asa" && !g.Small && g.WithVPN && g.Rng.Intn(2) == 0 {
 		c.VPN = g.TargetVPN(c.Intfs[len(c.Intfs)-1])
 	}
 	return c
+}
+
+// dedupMembers: a group never holds one member twice.
+func dedupMembers(c *GConf) {
+	for _, gr := range c.Groups {
+		seen := map[string]bool{}
+		var l []string
+		for _, m := range gr.Members {
+			if !seen[m] {
+				seen[m] = true
+				l = append(l, m)
+			}
+		}
+		gr.Members = l
+	}
 }
 
 func indexOf(l []string, s string) int {
@@ -898,6 +916,7 @@ func (g *Gen) Device(t *GConf, nedits int, unmanaged bool) (*GConf, []string) {
 	for _, a := range d.ACLs {
 		a.Lines = dedupLines(a.Lines, g.Kind == "ios")
 	}
+	dedupMembers(d)
 	// A device never holds the same route line twice.
 	seenRoute := map[string]bool{}
 	var routes []string
